@@ -2043,10 +2043,16 @@ def _promote_branch_decls(
     def record(name: str, child_ctx: Dict[str, object]) -> None:
         if name in parent_declared:
             return
+        branch_type = child_ctx.get("var_types", {}).get(name, "int")
         if name not in coverage:
             coverage[name] = 0
             order.append(name)
-            inferred[name] = child_ctx.get("var_types", {}).get(name, "int")
+            inferred[name] = branch_type
+        elif branch_type != inferred[name] and not (
+            _is_list_type(branch_type) or _is_list_type(inferred[name])
+        ):
+            # the hoisted declaration must hold the value of every branch
+            inferred[name] = _merge_element_types([inferred[name], branch_type])
         coverage[name] += 1
 
     for child_ctx, _ in branch_entries:
